@@ -97,7 +97,7 @@ pub fn run(ctx: &Ctx, def: &ScenDef) -> i32 {
         || cgen::case(&profile),
         |case: &Case| {
             let (violations, stats, trace) = eval_case(case);
-            Eval { nontrivial: (def.nontrivial)(&stats, &trace), classes: classes(&stats, &trace), violations }
+            Eval { nontrivial: (def.nontrivial)(&stats, &trace), classes: classes(&stats, &trace), violations, watchdog: trace.watchdog }
         },
     );
     finish(
